@@ -325,7 +325,7 @@ func (s *searcher) checkConstructed(cs []constructed) {
 		switch {
 		case strings.HasPrefix(got[i], "DIED"):
 			s.finding("hang:call", c.op, "expected "+clip(c.want)+"; the call never returned / allocated without bound: "+got[i])
-		case got[i] == "SKIPPED":
+		case got[i] == "SKIPPED" || c.want == "":
 		case got[i] != c.want:
 			kind := strings.Fields(c.op)[0]
 			s.finding("constructed:"+kind, c.op, "by construction the answer is "+clip(c.want)+", the implementation says "+clip(got[i]))
@@ -793,6 +793,8 @@ func searchMain(a map[string]string) {
 	// inputs assembled from known parts, answers known by construction; run in a child process so that
 	// a decoder that never returns is reported with its input and the search goes on
 	s.checkConstructed(rawFamily(hx.NewRng(hx.SeedFromEnv()^0x7a3), thorough))
+	// recursive types: expected bytes from the specification encoder over the value's item tree
+	s.checkConstructed(recFamily(hx.NewRng(hx.SeedFromEnv()^0x3c1), 2, false))
 
 	// process-local history (type cache), deterministic small family, before anything can loop
 	{
